@@ -23,6 +23,7 @@ import (
 	"sort"
 	"strings"
 	"sync"
+	"unsafe"
 
 	"golang.org/x/tools/go/analysis"
 
@@ -43,13 +44,29 @@ type Fix struct {
 	Edits []Edit `json:"edits"`
 }
 
+// Diag is a diagnostic as a go/analysis driver sees it: READ AFTER every pass of the scenario has run (drivers print
+// diagnostics and apply fixes after the pass; with the cached engine the later files and packages run on the same pooled
+// RunnerState). AtReport is set when what was read inside pass.Report differs from that.
 type Diag struct {
-	Pos   int    `json:"pos"`
-	End   int    `json:"end"`
-	Cat   string `json:"cat"`
-	Msg   string `json:"msg"`
-	Fixes []Fix  `json:"fixes"`
-	NRel  int    `json:"nrel"`
+	Pos      int    `json:"pos"`
+	End      int    `json:"end"`
+	Cat      string `json:"cat"`
+	Msg      string `json:"msg"`
+	Fixes    []Fix  `json:"fixes"`
+	NRel     int    `json:"nrel"`
+	AtReport *Diag  `json:"at_report,omitempty"`
+}
+
+// AliasFinding: two Replacement slices handed out by a directly driven engine share memory, or one of them no longer
+// holds the text it held when Report was called.
+type AliasFinding struct {
+	Kind    string       `json:"kind"` // changed | overlap | state-changes-reports
+	Version string       `json:"version"`
+	Pkg     string       `json:"pkg"`
+	A       DirectReport `json:"a"`
+	B       DirectReport `json:"b"`
+	PkgB    string       `json:"pkg_b,omitempty"`
+	TextNow string       `json:"text_now"`
 }
 
 type DirectReport struct {
@@ -75,6 +92,8 @@ type Step struct {
 	SameEngine bool   `json:"same_engine"` // global engine pointer equals the one seen after the first successful load
 	Errored    bool   `json:"errored"`
 	Pool       bool   `json:"pool"`
+	// the diagnostics as they were handed to pass.Report (the []byte fields still point where the adapter made them point)
+	raw []analysis.Diagnostic
 }
 
 type Flags struct {
@@ -110,6 +129,12 @@ type Scenario struct {
 	// -e sweep scenarios: the index of the text in the pool and whether the pool expects it not to load
 	ESweep  int  `json:"esweep"` // -1: not a sweep scenario
 	EBroken bool `json:"e_broken"`
+	// the engine's side of "a []byte is a reference": findings of the direct engine run with one RunnerState for
+	// all files (as the adapter's pool does); number of suggestion slices examined
+	EngineAlias   []AliasFinding `json:"engine_alias"`
+	EngineSlices  int            `json:"engine_slices"`
+	LateDiffs     int            `json:"late_diffs"`
+	FilesOnState  int            `json:"files_on_state"` // files run by passes of this scenario after the first file that produced a fix
 }
 
 type pkgT struct {
@@ -272,6 +297,43 @@ func h() bool {
 
 func nothing() {}
 `},
+	// three files of one package, run one after the other on one runner state: every file has matches of every rule
+	// that suggests, the replacement texts get shorter from file to file (the empty text included), so that whatever
+	// the engine keeps between files is reused rather than outgrown
+	"pe": {`package pe
+` + decls + `
+func long(a, b int, s string) bool {
+	pb1("a rather long argument, longer than anything the later files pass on")
+	pg2("the left operand, a long text", "the right operand, another long text")
+	_ = (a + 1000000) * (b + 2000000) * 3000000
+	pdel(1000001, 1000002, 1000003, 1000004, 1000005, 1000006)
+	legacy(1234567890).then(987654321)
+	pz1(1234567890123)
+	return "a rather long string literal" == "a rather long string literal"
+}
+`, `package pe
+
+func medium(a, b int) bool {
+	pb1("medium argument")
+	pg2("left", "right text")
+	_ = a * (b + 20) * 30
+	pdel(11, 12, 13)
+	legacy(12345).then(54321)
+	return "medium" == "medium"
+}
+`, `package pe
+
+func short(a, b int) bool {
+	pdel()
+	pb1(2)
+	pg2(1, 2)
+	_ = a * b
+	pdel(1)
+	legacy(1).then(2)
+	pb1(a)
+	return a == a
+}
+`},
 	// generated code: a //line directive before the package clause makes every position of the file name a non-Go file
 	"pd": {`//line gen.y:10
 package pd
@@ -320,7 +382,27 @@ func (p *pkgT) off(pos token.Pos) int {
 	return int(pos)
 }
 
-func runPass(p *pkgT) (diags []Diag, errStr, panicStr string) {
+func convDiag(p *pkgT, d analysis.Diagnostic) Diag {
+	out := Diag{Pos: p.off(d.Pos), End: p.off(d.End), Cat: d.Category, Msg: d.Message, NRel: len(d.Related)}
+	for _, fx := range d.SuggestedFixes {
+		f := Fix{Msg: fx.Message}
+		for _, te := range fx.TextEdits {
+			f.Edits = append(f.Edits, Edit{Pos: p.off(te.Pos), End: p.off(te.End), Text: string(te.NewText)})
+		}
+		out.Fixes = append(out.Fixes, f)
+	}
+	return out
+}
+
+func sameDiag(a, b Diag) bool {
+	x, _ := json.Marshal(a)
+	y, _ := json.Marshal(b)
+	return string(x) == string(y)
+}
+
+// runPass drives one pass. diags: what pass.Report saw at the time of the call; raw: the values themselves, to be read
+// again by finalizeStep once everything that shares the pooled runner state has run.
+func runPass(p *pkgT) (diags []Diag, raw []analysis.Diagnostic, errStr, panicStr string) {
 	var mu sync.Mutex
 	pass := &analysis.Pass{
 		Analyzer:   analyzer.Analyzer,
@@ -330,16 +412,10 @@ func runPass(p *pkgT) (diags []Diag, errStr, panicStr string) {
 		TypesInfo:  p.info,
 		TypesSizes: types.SizesFor("gc", "amd64"),
 		Report: func(d analysis.Diagnostic) {
-			out := Diag{Pos: p.off(d.Pos), End: p.off(d.End), Cat: d.Category, Msg: d.Message, NRel: len(d.Related)}
-			for _, fx := range d.SuggestedFixes {
-				f := Fix{Msg: fx.Message}
-				for _, te := range fx.TextEdits {
-					f.Edits = append(f.Edits, Edit{Pos: p.off(te.Pos), End: p.off(te.End), Text: string(te.NewText)})
-				}
-				out.Fixes = append(out.Fixes, f)
-			}
+			out := convDiag(p, d)
 			mu.Lock()
 			diags = append(diags, out)
+			raw = append(raw, d)
 			mu.Unlock()
 		},
 	}
@@ -360,7 +436,29 @@ func runPass(p *pkgT) (diags []Diag, errStr, panicStr string) {
 	return
 }
 
-func directRun(e *ruleguard.Engine, p *pkgT, goVersion string) ([]DirectReport, string) {
+// finalizeStep reads the kept diagnostics the way a driver does, after the fact.
+func finalizeStep(p *pkgT, st *Step) (diffs int) {
+	for i := range st.raw {
+		late := convDiag(p, st.raw[i])
+		if !sameDiag(late, st.Diags[i]) {
+			early := st.Diags[i]
+			late.AtReport = &early
+			diffs++
+		}
+		st.Diags[i] = late
+	}
+	return diffs
+}
+
+// keptSlice: a Replacement slice exactly as the engine handed it to Report, and what it held then
+type keptSlice struct {
+	b    []byte
+	text string
+	pkg  string
+	rep  DirectReport
+}
+
+func directRun(e *ruleguard.Engine, p *pkgT, goVersion string, state *ruleguard.RunnerState, keep *[]keptSlice) ([]DirectReport, string) {
 	var out []DirectReport
 	gv, err := ruleguard.ParseGoVersion(goVersion)
 	if err != nil {
@@ -368,6 +466,7 @@ func directRun(e *ruleguard.Engine, p *pkgT, goVersion string) ([]DirectReport, 
 	}
 	ctx := &ruleguard.RunContext{
 		Pkg: p.pkg, Types: p.info, Sizes: types.SizesFor("gc", "amd64"), Fset: p.fset, GoVersion: gv,
+		State: state,
 		Report: func(data *ruleguard.ReportData) {
 			r := DirectReport{Msg: data.Message, Line: data.RuleInfo.Line, Pos: p.off(data.Node.Pos())}
 			if data.RuleInfo.Group != nil {
@@ -379,6 +478,9 @@ func directRun(e *ruleguard.Engine, p *pkgT, goVersion string) ([]DirectReport, 
 				r.From = p.off(data.Suggestion.From)
 				r.To = p.off(data.Suggestion.To)
 				r.Text = string(data.Suggestion.Replacement)
+				if keep != nil {
+					*keep = append(*keep, keptSlice{b: data.Suggestion.Replacement, text: r.Text, pkg: p.name, rep: r})
+				}
 			}
 			out = append(out, r)
 		},
@@ -389,6 +491,40 @@ func directRun(e *ruleguard.Engine, p *pkgT, goVersion string) ([]DirectReport, 
 		}
 	}
 	return out, ""
+}
+
+// aliasFindings: no kept slice may have changed, and no two of them may share memory (capacity included: whoever
+// appends to one of them must not write into another).
+func aliasFindings(version string, kept []keptSlice) []AliasFinding {
+	var out []AliasFinding
+	for _, k := range kept {
+		if string(k.b) != k.text {
+			out = append(out, AliasFinding{Kind: "changed", Version: version, Pkg: k.pkg, A: k.rep, TextNow: string(k.b)})
+		}
+	}
+	type ext struct {
+		lo, hi uintptr
+		i      int
+	}
+	var exts []ext
+	for i, k := range kept {
+		if cap(k.b) == 0 {
+			continue
+		}
+		lo := uintptr(unsafe.Pointer(unsafe.SliceData(k.b)))
+		exts = append(exts, ext{lo, lo + uintptr(cap(k.b)), i})
+	}
+	sort.Slice(exts, func(i, j int) bool { return exts[i].lo < exts[j].lo })
+	for i := 1; i < len(exts); i++ {
+		if exts[i].lo < exts[i-1].hi {
+			a, b := kept[exts[i-1].i], kept[exts[i].i]
+			out = append(out, AliasFinding{Kind: "overlap", Version: version, Pkg: a.pkg, A: a.rep, PkgB: b.pkg, B: b.rep, TextNow: string(a.b)})
+		}
+	}
+	if len(out) > 6 {
+		out = out[:6]
+	}
+	return out
 }
 
 func setFlag(name, val string) {
@@ -692,13 +828,37 @@ func main() {
 				sc.AllGroups[key] = append(sc.AllGroups[key], g.Name)
 			}
 			sc.Direct[key] = map[string][]DirectReport{}
+			var kept []keptSlice
 			for _, pn := range pkgNames {
-				reps, rerr := directRun(e, pkgs[pn], fl.Go)
+				reps, rerr := directRun(e, pkgs[pn], fl.Go, nil, &kept)
 				if rerr != "" {
 					sc.DirectErr[key+"/"+pn] = rerr
 				}
 				sc.Direct[key][pn] = reps
 			}
+			// once more with ONE runner state for every file of every package (what the adapter's pool amounts to): the
+			// reports must be the same, and every Replacement ever handed out must still be what it was
+			rstate := ruleguard.NewRunnerState(e)
+			for _, pn := range pkgNames {
+				reps, _ := directRun(e, pkgs[pn], fl.Go, rstate, &kept)
+				a, _ := json.Marshal(reps)
+				b, _ := json.Marshal(sc.Direct[key][pn])
+				if string(a) != string(b) {
+					f := AliasFinding{Kind: "state-changes-reports", Version: key, Pkg: pn}
+					for i := range reps {
+						if i >= len(sc.Direct[key][pn]) || reps[i] != sc.Direct[key][pn][i] {
+							f.A = reps[i]
+							if i < len(sc.Direct[key][pn]) {
+								f.B = sc.Direct[key][pn][i]
+							}
+							break
+						}
+					}
+					sc.EngineAlias = append(sc.EngineAlias, f)
+				}
+			}
+			sc.EngineSlices += len(kept)
+			sc.EngineAlias = append(sc.EngineAlias, aliasFindings(key, kept)...)
 		}
 
 		// ---- adapter side
@@ -759,7 +919,7 @@ func main() {
 				go func(st *Step) {
 					defer wg.Done()
 					<-start
-					st.Diags, st.Err, st.Panic = runPass(pkgs[st.Pkg])
+					st.Diags, st.raw, st.Err, st.Panic = runPass(pkgs[st.Pkg])
 				}(&steps[i])
 			}
 			close(start)
@@ -778,7 +938,7 @@ func main() {
 			if *esweep {
 				st.Pkg = pkgNames[i%len(pkgNames)]
 			}
-			st.Diags, st.Err, st.Panic = runPass(pkgs[st.Pkg])
+			st.Diags, st.raw, st.Err, st.Panic = runPass(pkgs[st.Pkg])
 			observe(&st)
 			sc.Steps = append(sc.Steps, st)
 			// the rules on disk change after every pass: 0 -> 1 -> 2 -> 1 ...
@@ -805,10 +965,25 @@ func main() {
 				}
 			}
 		}
+		// every pass of the scenario has run (all of them on the runner states of one pool): now read the diagnostics
+		seenFix := false
 		for i := range sc.Steps {
-			if sc.Steps[i].Diags == nil {
-				sc.Steps[i].Diags = []Diag{}
+			st := &sc.Steps[i]
+			if seenFix {
+				sc.FilesOnState += len(pkgs[st.Pkg].files)
 			}
+			for _, d := range st.Diags {
+				if len(d.Fixes) > 0 {
+					seenFix = true
+				}
+			}
+			sc.LateDiffs += finalizeStep(pkgs[st.Pkg], st)
+			if st.Diags == nil {
+				st.Diags = []Diag{}
+			}
+		}
+		if sc.EngineAlias == nil {
+			sc.EngineAlias = []AliasFinding{}
 		}
 		enc.Encode(sc)
 	}
